@@ -32,6 +32,26 @@ struct NodeKind {
     text: &'static str,
 }
 
+/// Inner-form skip attribute inside the body of an inline item: the whole item keeps its bytes.
+/// `INNER` is replaced by the attribute (marked node) or by nothing (sibling).
+static INNER_NODES: &[NodeKind] = &[
+    NodeKind { name: "inner-fn", class: "item", text: "fn  NAME ( a : u32 )  {INNER  let  x=1 ;\n   x }" },
+    NodeKind { name: "inner-mod", class: "item", text: "mod  NAME  {INNER  fn  f ( ) { }\n     fn g(){} }" },
+    NodeKind { name: "inner-impl", class: "item", text: "impl  NAME  {INNER  fn  f ( ) { }\n        fn g(){} }" },
+    NodeKind { name: "inner-trait", class: "item", text: "trait  NAME  {INNER  fn  f ( ) ;\n        fn g(){} }" },
+    NodeKind { name: "inner-extern", class: "item", text: "extern  \"C\"  {INNER  fn  NAME ( a : u32 ,\n   b : u8 ) ; }" },
+    NodeKind { name: "inner-method", class: "assoc", text: "fn  NAME ( & self )  {INNER  let  x=1 ;\n   x }" },
+    NodeKind { name: "inner-block-stmt", class: "stmt", text: "{INNER  NAME ( 1 ,\n     2 ) ; }" },
+    NodeKind { name: "inner-loop", class: "stmt", text: "loop  {INNER  NAME ( 1 ,\n     2 ) ; }" },
+    NodeKind { name: "inner-match", class: "stmt", text: "match  NAME  {INNER  A  =>  1 ,\n   _  =>  2 }" },
+];
+
+pub static INNER_SPELLINGS: &[&str] = &[
+    " #![rustfmt::skip]\n",
+    " #![cfg_attr(rustfmt, rustfmt::skip)]\n",
+    " #![rustfmt_skip]\n",
+];
+
 static NODES: &[NodeKind] = &[
     NodeKind { name: "fn", class: "item", text: "fn  NAME ( a : u32 ,\n      b:u32 )  {  let  x=1 ;\n }" },
     NodeKind { name: "struct", class: "item", text: "struct  NAME {  a : u32 ,\n        b:u8 }" },
@@ -174,7 +194,7 @@ impl Prop for C04 {
         "C04"
     }
     fn rule(&self) -> String {
-        "35 node kinds (every item kind, assoc / foreign items, let / expr / macro / item statements, fields, variants, match \
+        "35 node kinds + 9 inner-attribute forms (every item kind, assoc / foreign items, let / expr / macro / item statements, fields, variants, match \
          arms, expressions in argument / element / initialiser position) x 5 skip spellings x every nesting context of the \
          node's class (25 contexts incl. closure in call in macro, impl in mod, depth 3) x every width x configuration \
          deviations; skip::macros at item / mod / crate / nested level, skip_macro_invocations [name] and [*] at three \
@@ -241,6 +261,26 @@ impl Prop for C04 {
                             cfg: cfg.clone(),
                             // the node keeps its bytes; its attribute may be re-indented on a line of its own
                             extra: json!({"verbatim": [marked_node, sp], "must_change": [sibling], "sweep": ci <= 1}),
+                        });
+                    }
+                }
+            }
+        }
+        for nk in INNER_NODES {
+            for cx in CTXS.iter().filter(|c| c.class == nk.class) {
+                for (si, sp) in INNER_SPELLINGS.iter().enumerate() {
+                    for (ci, cfg) in cfgs.iter().enumerate() {
+                        if ci > 1 && (si > 0 || !thorough) {
+                            continue;
+                        }
+                        let marked = nk.text.replace("NAME", "skipped").replace("INNER", sp);
+                        let sibling = nk.text.replace("NAME", "sibling").replace("INNER", "");
+                        let text = cx.text.replace("MARKED", &marked).replace("SIBLING", &sibling);
+                        units.push(Unit {
+                            key: format!("{}/{}/{}", nk.name, cx.name, sp.trim()),
+                            text,
+                            cfg: cfg.clone(),
+                            extra: json!({"verbatim": [marked], "must_change": [sibling], "sweep": ci <= 1}),
                         });
                     }
                 }
